@@ -204,6 +204,23 @@ fn witness_c01_legal_moves_exact() {
         let mut board = Bitboard::from_fen_string_unchecked(fen);
         check_position_as(&mut board, Some(fen), &mut bad);
     }
+    // castling with the ENEMY KING next to the king's path or landing square (kings never give check, but they do guard squares)
+    for file in 1..7usize {
+        for rank in [2usize, 3] {
+            if rank == 2 && (3..=5).contains(&file) { continue; }      // next to the king on e1 / e8: not a legal position
+            let mut row = String::new();
+            if file > 0 { row.push_str(&file.to_string()); }
+            row.push('k');
+            if file < 7 { row.push_str(&(7 - file).to_string()); }
+            let (r2, r3) = if rank == 2 { (row.clone(), "8".to_string()) } else { ("8".to_string(), row.clone()) };
+            let white = format!("8/8/8/8/8/{}/{}/R3K2R w KQ - 0 1", r3, r2);
+            let black = format!("r3k2r/{}/{}/8/8/8/8/8 b kq - 0 1", r2.replace('k', "K"), r3.replace('k', "K"));
+            for fen in [white, black] {
+                let mut board = Bitboard::from_fen_string_unchecked(&fen);
+                check_position_as(&mut board, Some(&fen), &mut bad);
+            }
+        }
+    }
     // deterministic pseudo-random games from the start position and two middlegames
     let mut x: u64 = 0x9E3779B97F4A7C15;
     for root in ["rnbqkbnr/pppppppp/8/8/8/8/PPPPPPPP/RNBQKBNR w KQkq - 0 1",
